@@ -4,6 +4,7 @@ package main
 import (
 	"fmt"
 	"runtime"
+	"sync/atomic"
 	"time"
 	"unsafe"
 
@@ -220,6 +221,95 @@ func chainScenario(threads, depth, bound int) schk.Scenario {
 	}
 }
 
+// nilScenario: caller 0 passes a real function; callers 1..n-1 pass a NIL function, and start only after
+// caller 0's action has begun (so the nil function can never be the one that is invoked). They must
+// behave like any other late caller: wait for the action to complete and return its values.
+func nilScenario(arity, n int) schk.Scenario {
+	type nrec struct {
+		started   atomic.Bool // harness-level signal (ordered before everything the action does later)
+		completed bool
+		ret       [][3]int
+		saw       []bool
+		runs      int
+	}
+	return schk.Scenario{
+		Name: fmt.Sprintf("Once%d/%d-callers/late-callers-pass-a-nil-function", arity, n), Bound: -1, RaceBound: 2,
+		Body: func(s *vrt.Sched) any {
+			r := &nrec{ret: make([][3]int, n), saw: make([]bool, n)}
+			action := func() (int, int, int) {
+				r.runs++
+				r.started.Store(true)
+				vrt.Yield("action.step1", unsafe.Pointer(r), true)
+				vrt.Yield("action.step2", unsafe.Pointer(r), true)
+				r.completed = true
+				return 7, 8, 9
+			}
+			var do func(real bool) [3]int
+			switch arity {
+			case 1:
+				o := new(sync2.Once1[int])
+				do = func(real bool) [3]int {
+					var f func() int
+					if real {
+						f = func() int { a, _, _ := action(); return a }
+					}
+					a := o.Do(f)
+					return [3]int{a, 8, 9}
+				}
+			case 2:
+				o := new(sync2.Once2[int, int])
+				do = func(real bool) [3]int {
+					var f func() (int, int)
+					if real {
+						f = func() (int, int) { a, b, _ := action(); return a, b }
+					}
+					a, b := o.Do(f)
+					return [3]int{a, b, 9}
+				}
+			default:
+				o := new(sync2.Once3[int, int, int])
+				do = func(real bool) [3]int {
+					var f func() (int, int, int)
+					if real {
+						f = action
+					}
+					a, b, c := o.Do(f)
+					return [3]int{a, b, c}
+				}
+			}
+			for i := 0; i < n; i++ {
+				i := i
+				s.Spawn(fmt.Sprintf("caller%d", i), func() {
+					if i > 0 {
+						vrt.PointOp(&vrt.Op{Kind: "h.wait-action-started", Ready: func() bool { return r.started.Load() }})
+					}
+					r.ret[i] = do(i == 0)
+					r.saw[i] = r.completed
+				})
+			}
+			return r
+		},
+		Check: func(x *vrt.Exec, obs any) (*schk.Fail, string) {
+			r := obs.(*nrec)
+			if x.Panic != "" || x.Deadlock {
+				return nil, "abnormal"
+			}
+			if r.runs != 1 {
+				return schk.Failf("not-exactly-once", "the action ran %d times", r.runs), ""
+			}
+			for i := range r.ret {
+				if r.ret[i] != [3]int{7, 8, 9} {
+					return schk.Failf("wrong-result", "caller %d (nil function: %v) got %v from Do, the one invocation returned [7 8 9]", i, i > 0, r.ret[i]), ""
+				}
+				if !r.saw[i] {
+					return schk.Failf("returned-before-completion", "caller %d (nil function: %v): Do returned before the action had completed", i, i > 0), ""
+				}
+			}
+			return nil, "ok"
+		},
+	}
+}
+
 func main() {
 	r := ev.Start("C17")
 	var scs []schk.Scenario
@@ -237,13 +327,16 @@ func main() {
 		}
 		scs = append(scs, scenarioX(arity, 2, -1, "", true), scenarioX(arity, 3, ev.Pick(r, 2, -1), "", true))
 	}
+	for arity := 1; arity <= 3; arity++ {
+		scs = append(scs, nilScenario(arity, 2), nilScenario(arity, 3))
+	}
 	// many Once values in use at the same time (state shared between distinct values)
 	scs = append(scs, chainScenario(1, 70, -1), chainScenario(1, 300, -1), chainScenario(2, 70, ev.Pick(r, 1, 2)), chainScenario(2, 2, -1), chainScenario(3, 2, 2))
 	if r.Thorough() {
 		scs = append(scs, chainScenario(1, 5000, -1), chainScenario(2, 300, 1), chainScenario(3, 70, 1))
 	}
 	schk.Main(r, scs, ev.Pick(r, 40*time.Second, 600*time.Second), func(r *ev.Run) {
-		r.Set("rule", "controlled scheduler over the instrumented sync2 package: 2, 3 (thorough: 4 and 5 without a preemption bound, 6 with bound 3) concurrent Do callers on one OnceN value, each passing its own function (distinct results, invocation counter, two internal scheduling points, completion flag written last), plus a caller after quiescence; variants where caller 0's action leaves through runtime.Goexit or a panic, and where every caller calls Do twice in a row; nested chains of Do calls over up to 300 (thorough 5000) distinct Once values per thread, 1-3 threads; every interleaving of the visible operations (atomic loads/stores, mutex operations of the Once, the action's internal points) within the stated preemption bound, or all of them; the same scenarios run under the race detector inside every explored schedule")
+		r.Set("rule", "controlled scheduler over the instrumented sync2 package: 2, 3 (thorough: 4 and 5 without a preemption bound, 6 with bound 3) concurrent Do callers on one OnceN value, each passing its own function (distinct results, invocation counter, two internal scheduling points, completion flag written last), plus a caller after quiescence; variants where caller 0's action leaves through runtime.Goexit or a panic, and where every caller calls Do twice in a row; late callers that pass a nil function; nested chains of Do calls over up to 300 (thorough 5000) distinct Once values per thread, 1-3 threads; every interleaving of the visible operations (atomic loads/stores, mutex operations of the Once, the action's internal points) within the stated preemption bound, or all of them; the same scenarios run under the race detector inside every explored schedule")
 		r.Assume("sync.Once is modelled by the standard algorithm (atomic done flag + mutex) re-expressed over the instrumented primitives")
 	})
 }
